@@ -500,6 +500,12 @@ func (er *encRun) roundTrip(stream string, t *target, m protoreflect.Message, fl
 	in := map[string]any{"type": t.Env.Root, "message": shortMsg(m)}
 	er.distinct.Add(t.Name + msgTerm(m))
 	o := encodeMsg(theCodec, m)
+	// sequence shape: the document returned for the PREVIOUS case (the slice itself, never copied) must
+	// still decode to its message now that another message has been encoded (a pooled / reused output
+	// buffer breaks this while every immediate encode-decode pair still passes)
+	er.recheckPrevRT()
+	rawOut := o.Out
+	o.Out = append([]byte(nil), o.Out...) // this case works on a copy taken at once
 	switch o.Kind {
 	case "panic":
 		res.Fail(vh.Failure{Case: caseNo, Stream: stream, Sig: "C01 encoder panic on a representable message", Clause: "encoding a representable message succeeds", Input: in, Got: o.Panic})
@@ -579,6 +585,7 @@ func (er *encRun) roundTrip(stream string, t *target, m protoreflect.Message, fl
 		res.Count("equal_only_modulo_allowances")
 	}
 	res.Count("roundtrip_ok")
+	er.prevRT = &keptRT{raw: rawOut, m: cloneMsg(m), t: t, flat: flat, in: in, caseNo: caseNo, stream: stream, suffix: ext}
 	if len(o.Out) > 2 && len(o.Out) < 160 {
 		res.Sample(map[string]any{"stream": stream, "type": t.Env.Root, "json": string(o.Out)}, 8)
 	}
@@ -624,14 +631,14 @@ func runC01(cfg *vh.Config) error {
 		g.fill(m, 1)
 		er.roundTrip("big", t, m, flats[t])
 	}
-	for i := 0; i < cfg.Scale(600, 12000); i++ {
+	for i := 0; i < cfg.Scale(480, 12000); i++ {
 		t := pick()
 		g := &msgGen{r: r, maxDepth: 2, fieldPct: vh.Pick(r, []int{3, 6}), maxEntries: 2, emptySubs: 30}
 		m := t.New()
 		g.fill(m, 1)
 		er.roundTrip("sparse", t, m, flats[t])
 	}
-	for i := 0; i < cfg.Scale(800, 16000); i++ {
+	for i := 0; i < cfg.Scale(680, 16000); i++ {
 		t := pick()
 		g := &msgGen{r: r, maxDepth: r.Range(1, 5), fieldPct: vh.Pick(r, []int{10, 20, 35, 60}), maxEntries: r.Range(1, 3), emptySubs: vh.Pick(r, []int{0, 10, 30})}
 		m := t.New()
@@ -650,7 +657,7 @@ func runC01(cfg *vh.Config) error {
 	} {
 		er.roundTrip("non-finite-float", full, m.ProtoReflect(), flats[full])
 	}
-	for i := 0; i < cfg.Scale(150, 3000); i++ {
+	for i := 0; i < cfg.Scale(100, 1500); i++ {
 		t := pick()
 		g := &msgGen{r: r, maxDepth: r.Range(1, 3), fieldPct: vh.Pick(r, []int{10, 30, 60}), maxEntries: r.Range(1, 3), nonFinite: true}
 		m := t.New()
@@ -897,4 +904,36 @@ type sigSuffix struct {
 func (s *sigSuffix) Fail(f vh.Failure) {
 	f.Sig += s.suffix
 	s.Result.Fail(f)
+}
+
+// recheckPrevRT decodes the un-copied document of the previous round-trip case after a later encode.
+func (er *encRun) recheckPrevRT() {
+	p := er.prevRT
+	er.prevRT = nil
+	if p == nil {
+		return
+	}
+	er.res.Count("sequence_rechecked_after_later_encode")
+	c := theCodec
+	if hasPBAny(p.m) {
+		c = anyCodec
+	}
+	back := p.t.New()
+	err, pan := decodeMsg(c, p.raw, back)
+	got := ""
+	switch {
+	case pan != nil:
+		got = fmt.Sprintf("panic %v", pan)
+	case err != nil:
+		got = err.Error()
+	default:
+		a, b := cloneMsg(p.m), cloneMsg(back)
+		dropEmptyFlattened(a, p.flat)
+		dropEmptyFlattened(b, p.flat)
+		got = equalModulo(a, b, "$")
+	}
+	if got != "" {
+		er.res.Fail(vh.Failure{Case: p.caseNo, Stream: p.stream, Sig: "C01 document returned by an earlier encode no longer decodes to its message after a later encode" + p.suffix,
+			Clause: "decode(encode m) equals m (the document is the caller's: a later encode must not change it)", Input: p.in, Got: got + " via " + short(p.raw)})
+	}
 }
